@@ -93,9 +93,10 @@ void f_strwrap (void) {
 #ifdef F_REPEAT_STRING
 void f_repeat_string (void) {
   char *str;
-  size_t repeat, len;
+  int64_t repeat;
+  size_t len;
   char *ret, *p;
-  size_t i;
+  int64_t i;
 
   repeat = (sp--)->u.number;
   if (repeat <= 0)
@@ -109,7 +110,8 @@ void f_repeat_string (void) {
     {
       str = sp->u.string;
       len = SVALUE_STRLEN (sp);
-      if (len * repeat > (size_t)CONFIG_INT (__MAX_STRING_LENGTH__))
+      /* (compared by division: len * repeat overflows for huge counts) */
+      if (len && (size_t)repeat > (size_t)CONFIG_INT (__MAX_STRING_LENGTH__) / len)
         error ("repeat_string: String too large.\n");
 //      repeat = CONFIG_INT(__MAX_STRING_LENGTH__) / len;
       p = ret = new_string (len * repeat, "f_repeat_string");
